@@ -8,6 +8,9 @@ use std::io::{Read, Write};
 use std::sync::Arc;
 use tiny_http::{Header, Request, Response, Server, StatusCode};
 
+/// client ends of the connections of the execution in progress (read by the D1 controller)
+pub static REGISTRY: std::sync::Mutex<Vec<(usize, Cli)>> = std::sync::Mutex::new(Vec::new());
+
 pub fn js(s: &str) -> String {
     let mut o = String::with_capacity(s.len() + 2);
     o.push('"');
@@ -186,6 +189,12 @@ fn client_reader(sh: Arc<Shared>, c: usize, cli: Cli) {
 
 fn client_writer(sh: Arc<Shared>, c: usize, addr: Addr) {
     let conn = &sh.sc.conns[c];
+    // leading pauses happen before the connection is opened
+    let mut first = 0;
+    while let Some(CStep::Sleep { ns }) = conn.prog.get(first) {
+        world::sleep_ns(*ns);
+        first += 1;
+    }
     let cli = match Cli::connect(&addr) {
         Ok(x) => x,
         Err(e) => {
@@ -196,6 +205,7 @@ fn client_writer(sh: Arc<Shared>, c: usize, addr: Addr) {
     if conn.window.is_some() {
         cli.set_window(conn.window);
     }
+    REGISTRY.lock().unwrap().push((c, cli.try_clone()));
     world::log(format!(
         "\"ev\":\"COpen\",\"c\":{},\"ok\":true,\"local\":{}",
         c,
@@ -211,7 +221,7 @@ fn client_writer(sh: Arc<Shared>, c: usize, addr: Addr) {
     let stream = &sh.streams[c];
     let mut pos = 0usize;
     let mut closed = false;
-    for st in conn.prog.iter() {
+    for st in conn.prog.iter().skip(first) {
         match st {
             CStep::Send { to, cuts, gap_ns } => {
                 let to = (*to).min(stream.len());
@@ -317,6 +327,9 @@ fn handle(sh: &Arc<Shared>, mut rq: Request, c: usize, m: usize) {
         },
     };
     let expect_body: &[u8] = sh.bodies.get(c).and_then(|x| x.get(m)).map(|v| &v[..]).unwrap_or(&[]);
+    if plan.wait_phase > 0 {
+        world::wait_phase(plan.wait_phase);
+    }
     if plan.delay_ns > 0 {
         world::sleep_ns(plan.delay_ns);
     }
